@@ -83,7 +83,9 @@ def proc_syscall(pid):
 
 class Scheduler:
     def __init__(self, workdir, sockpath, lockfile, visible, chooser, max_steps=4000, step_timeout=20.0, poll_at=None,
-                 kill_roots=(), max_kills=1, env_player=None):
+                 kill_roots=(), max_kills=1, env_player=None, on_ask=None):
+        self.on_ask = on_ask                 # callback(name): environment action a script asks for at an "ask:<name>" gate
+        self.asked = set()
         self.env_player = env_player         # environment player with choices() -> [label] and act(label) (the make parent)
         self.kill_roots = list(kill_roots)   # environment player "user": may SIGKILL the whole tree of these invocations
         self.kills_left = max_kills if kill_roots else 0
@@ -413,6 +415,15 @@ class Scheduler:
                 flag = detail[5:].split(" ", 1)[0]
                 if os.path.exists(os.path.join(self.workdir, "flags", flag)):
                     out.append((p.lid, p.pid, kind, "go", detail))
+            elif kind == "script" and detail.startswith("ask:"):
+                # the environment acts (once per name) while everything is parked, then the script may go on
+                name = detail[4:].split(" ", 1)[0]
+                if name not in self.asked:
+                    self.asked.add(name)
+                    if self.on_ask:
+                        self.on_ask(name)
+                    self.events.append((self.step_no, "ENV", "ask", name))
+                out.append((p.lid, p.pid, kind, "go", detail))
             elif kind == "log-poll":
                 out.append((p.lid, p.pid, kind, "poll", detail))
             elif kind == "select-order":
